@@ -165,8 +165,9 @@ def make_f(cfg):
     return _classes()["DyPoly"](cfg["coeffs"], cfg["powers"], cfg.get("scale", 1.0))
 
 
-def build(cfg):
-    """a fresh instance for configuration cfg -> (instance, error operator, integrand)"""
+def build(cfg, f=None, op=None):
+    """an instance for configuration cfg -> (instance, error operator, integrand); `f` / `op`: reuse an integrand /
+    an Integration operation that already drove an earlier run (object history)"""
     import numpy as np
     from sparseSpACE.Grid import TrapezoidalGrid, GlobalTrapezoidalGrid
     from sparseSpACE.GridOperation import Integration
@@ -174,19 +175,24 @@ def build(cfg):
     C = _classes()
     dim = cfg["dim"]
     a, b = np.zeros(dim), np.ones(dim)
-    f = make_f(cfg)
-    if cfg.get("cache", True) is False:
-        f.deactivate_caching()      # f_dict then only serves as the point counter
+    if op is not None:
+        f = op.f
+    if f is None:
+        f = make_f(cfg)
+        if cfg.get("cache", True) is False:
+            f.deactivate_caching()      # f_dict then only serves as the point counter
     ref = reference_of(cfg, f)
     norm = norm_of(cfg["norm"])
     if cfg["strategy"] == "dimwise":
-        grid = GlobalTrapezoidalGrid(a, b, boundary=True, modified_basis=False)
-        op = Integration(f, grid=grid, dim=dim, reference_solution=ref)
+        if op is None:
+            grid = GlobalTrapezoidalGrid(a, b, boundary=True, modified_basis=False)
+            op = Integration(f, grid=grid, dim=dim, reference_solution=ref)
         eo = ErrorCalculatorSingleDimVolumeGuided()
         sa = C["dimwise"](a, b, version=cfg.get("version", 6), operation=op, norm=norm, print_level=100, log_level=100)
     else:
-        grid = TrapezoidalGrid(a, b, boundary=True, modified_basis=False)
-        op = Integration(f, grid=grid, dim=dim, reference_solution=ref)
+        if op is None:
+            grid = TrapezoidalGrid(a, b, boundary=True, modified_basis=False)
+            op = Integration(f, grid=grid, dim=dim, reference_solution=ref)
         eo = ErrorCalculatorExtendSplit()
         sa = C["extend_split"](a, b, version=cfg.get("version", 0), operation=op, norm=norm)
         sa.log_util.set_print_level(100)
@@ -194,9 +200,37 @@ def build(cfg):
     return sa, eo, f
 
 
-def run_impl(cfg, limits):
-    """one performSpatiallyAdaptiv; returns dict(status, tuple, log, instance, f)"""
+def run_impl(cfg, limits, prior=None):
+    """one performSpatiallyAdaptiv; returns dict(status, tuple, log, instance, f).
+    prior = {"kind", "limits"[, "strategy"]}: the objects have a HISTORY -- an earlier complete run with other limits
+      same_object      the same strategy object runs performSpatiallyAdaptiv a second time
+      new_object       a new strategy object of the same class drives the SAME Integration operation
+      shared_function  a new operation and strategy object (possibly of the other strategy) share the SAME Function object
+    Everything observed (log, the integrand's own record of distinct evaluation points) is reset between the runs, so
+    that the checks speak about THIS run: its reported counts must not remember the earlier one."""
     sa, eo, f = build(cfg)
+    if prior is not None:
+        cfg1 = dict(cfg, strategy=prior.get("strategy", cfg["strategy"]))
+        if cfg1["strategy"] != cfg["strategy"]:
+            cfg1["version"] = 6 if cfg1["strategy"] == "dimwise" else 0
+        L1 = prior["limits"]
+        try:
+            if prior["kind"] == "shared_function":
+                sa1, eo1, _ = build(cfg1, f=f)
+            else:
+                sa1, eo1 = sa, eo
+            quiet(sa1.performSpatiallyAdaptiv, 1, cfg["lmax"], eo1, tol=L1["tol"], max_evaluations=L1["max"],
+                  min_evaluations=L1["min"], print_output=False)
+            if prior["kind"] == "new_object":
+                sa, eo, _ = build(cfg, op=sa1.operation)
+            elif prior["kind"] == "shared_function":
+                sa, eo, _ = build(cfg, f=f)
+        except Exception as e:  # noqa: BLE001
+            return {"sa": sa, "f": f, "status": "exception", "ret": None, "log": [],
+                    "exc": "in the earlier run: %s: %s" % (type(e).__name__, e)}
+        sa.__dict__["_verif_log"] = []
+        f.seen = {}
+        f.calls = 0
     out = {"sa": sa, "f": f, "status": "ok", "ret": None, "exc": None}
     try:
         out["ret"] = quiet(sa.performSpatiallyAdaptiv, 1, cfg["lmax"], eo, tol=limits["tol"],
@@ -297,14 +331,17 @@ def same_error(norm, impl_err, exact, unit=1.0):
 
 
 # ------------------------------------------------------------------------------------------------ one case
-def check_run(ctx, drv, cfg, limits, scout_stream=None, tag_extra=None):
+def check_run(ctx, drv, cfg, limits, scout_stream=None, tag_extra=None, prior=None):
     """run cfg with limits on the implementation, compare with the model, evaluate the oracle.
     returns (ok, observed stream or None)"""
     case = {"cfg": cfg, "limits": limits}
+    if prior is not None:
+        case["prior"] = prior
     rclass = ref_class(reference_of(cfg, make_f(cfg)))
     tags = {"strategy": cfg["strategy"], "ref": rclass, "norm": cfg["norm"], "dim": cfg["dim"],
             "outputs": len(cfg["coeffs"]), "scale": cfg.get("scale", 1.0), "cache": cfg.get("cache", True)}
     ctx.count("refclass_" + rclass)
+    tags["history"] = prior["kind"] if prior else "fresh"
     if tag_extra:
         tags.update(tag_extra)
     ok = True
@@ -320,7 +357,7 @@ def check_run(ctx, drv, cfg, limits, scout_stream=None, tag_extra=None):
             ok = False
             ctx.corr_break("C13/" + obs, case, {"impl": str(impl)[:600], "model": str(model)[:600]})
 
-    out = run_impl(cfg, limits)
+    out = run_impl(cfg, limits, prior)
     log = out["log"]
     evals = [e for e in log if e["kind"] == "eval"]
     n_eval = len(evals)
@@ -521,7 +558,9 @@ def run(ctx):
                 "lmin 1, lmax 2-3; dyadic polynomial integrands with 1-3 outputs, scaled by 1 / 1e-10 / 1e-12 / 2^-34 / 2^-45 / 1e8 / 2^27, value cache on or "
                 "deactivated; reference exact/perturbed/zero/partially zero/none; norms inf,1,2); "
                 "a scout run (tol=-1) gives the stream, limits (tol,min,max) are then put exactly on its boundaries incl. limits met at the first "
-                "evaluation; the model must predict stop index / evaluations / refinements / array lengths from the scout stream; a case is one "
+                "evaluation; in 40 % of the runs the same strategy object / the same Integration operation with a new strategy object / the same Function "
+                "object with a new operation (same or other strategy) has already driven a complete run (counters of the harness reset per run); "
+                "the model must predict stop index / evaluations / refinements / array lengths from the scout stream; a case is one "
                 "(configuration, limits) run, distinct by both, non-trivial if it made at least one refinement or stopped at the first evaluation by a limit")
     drv = ctx.driver("drv_c13")
     import_ok = _classes()
@@ -556,10 +595,26 @@ def run(ctx):
             if parse_stop(drv.ask("run %s %s" % (lim_str(L), stream_str(stream)))) is None:
                 L = dict(L, max=stream[-1][1] - 1)
                 ctx.count("limits_capped")
-            ok2, s2 = check_run(ctx, drv, cfg, L, scout_stream=stream)
+            # object history: in 40 % of the runs the operation / Function / strategy object has already driven a complete
+            # run with other limits; the run under test must behave (and count) exactly like a fresh one
+            prior = None
+            if ctx.rng.random() < 0.4:
+                j = ctx.rng.randrange(len(stream))
+                prior = {"kind": ctx.rng.choice(["same_object", "new_object", "shared_function"]),
+                         "limits": {"tol": -1.0, "min": 1, "max": stream[j][1] - ctx.rng.choice([0, 1])}}
+                if prior["kind"] == "shared_function" and ctx.rng.random() < 0.5:
+                    prior["strategy"] = "dimwise" if cfg["strategy"] == "extend_split" else "extend_split"
+            ctx.count("history_" + (prior["kind"] if prior else "fresh"))
+            # (a dimension-wise strategy OBJECT that runs twice does not repeat the run of a fresh object -- its level caches
+            #  survive performSpatiallyAdaptiv --, so the scout stream predicts nothing there; the property's clauses and the
+            #  model on the run's own stream still apply)
+            same_obj = prior is not None and prior["kind"] == "same_object"
+            if same_obj and L["max"] is None:
+                L = dict(L, max=stream[-1][1] - 1)      # no prediction that a tolerance is ever reached: bound the run
+            ok2, s2 = check_run(ctx, drv, cfg, L, scout_stream=None if same_obj else stream, prior=prior)
             n2 = len(s2) if s2 else 0
             ctx.count("stopped_first" if n2 == 1 else "stopped_later")
-            ctx.case({"cfg": cfg, "limits": L}, nontrivial=n2 >= 1)
+            ctx.case({"cfg": cfg, "limits": L, "prior": prior}, nontrivial=n2 >= 1)
         if (len(ctx.violations) + len(ctx.corr_breaks)) >= ctx.max_reports:
             break
 
@@ -569,7 +624,7 @@ def replay(ctx, rp):
     drv = ctx.driver("drv_c13")
     _classes()
     cfg, L = case["cfg"], case["limits"]
-    ok, stream = check_run(ctx, drv, cfg, L, scout_stream=None)
+    ok, stream = check_run(ctx, drv, cfg, L, scout_stream=None, prior=case.get("prior"))
     print("replay: %s" % ("property holds and model agrees on this case" if ok else "REPRODUCED"))
     print("  observed stream (error, points, surplus):", stream)
     for v in ctx.violations[:3]:
